@@ -72,7 +72,8 @@ type observation struct {
 	positive       bool   // reply with answer records
 	tcOversize     bool   // TC set and still larger than the limit (allowed by the statement; counted)
 	canon          string // canonical text of the outcome (only filled when wanted)
-	twinRan        bool
+	twinRan        int    // metamorphic comparisons made
+	firstOfMany    bool   // multi-question query, reply echoes (and answers) the first question only
 }
 
 // limitFor is the number of bytes the client can take.
@@ -143,6 +144,11 @@ func check(ref *dns.Msg, c qcase, res dnsfix.Result, obs *observation) (fs []fin
 			}
 		}
 		switch {
+		case prefix && len(back.Question) == 1 && len(ref.Question) > 1:
+			// Documented baseline of the repository (dnsserver/handler_test.go, TestDNSDBMultipleQuestions:
+			// "only handle the first question ... the answer contains only the first question in the
+			// question section"): for a multi-question query "the query's question" is its first one.
+			obs.firstOfMany = true
 		case len(back.Question) == 0:
 			add("question-missing/rcode="+rcodeName(back.Rcode), "reply has no question section; query had %v", ref.Question)
 		case prefix:
@@ -253,7 +259,7 @@ func (e *env) eval(c qcase, twins []int, obs *observation, calls *int64) []findi
 		if err := treq.Unpack(tw); err != nil {
 			continue
 		}
-		obs.twinRan = true
+		obs.twinRan++
 		tref := treq.Copy()
 		*calls++
 		tres := e.serve(treq, c)
